@@ -7,6 +7,7 @@ import (
 	"fmt"
 	"sort"
 	"strings"
+	"sync"
 )
 
 // Query accumulates the declarations and definitional assertions of one
@@ -25,6 +26,9 @@ type Query struct {
 	quantDefs map[int]string
 	axioms    map[string]bool
 	off0      map[string]bool
+	focusMu     sync.Mutex
+	focusCached *focusInfo
+	quantSyms   map[int]map[string]bool
 }
 
 func newQuery(u *Universe) *Query {
